@@ -8,3 +8,5 @@ import PptxModel.Props.C17
 import PptxModel.Props.C14
 import PptxModel.Props.C04
 import PptxModel.Props.C06
+import PptxModel.Props.C20
+import PptxModel.GenProps.C20
